@@ -320,6 +320,8 @@ class Runner:
             res = self._session_block(op)
         elif kind == 'session_nested':
             res = self._session_nested(op)
+        elif kind == 'session_block_save':
+            res = self._session_block_save(op)
         elif kind == 'burst':
             res, contained = self._burst(op)
         elif kind == 'settle':
@@ -443,6 +445,33 @@ class Runner:
                 with self.sio.session(sid, namespace=op['ns']) as inner:
                     inner[op['k2']] = copy.deepcopy(op['v2'])
                 outer[op['k']] = copy.deepcopy(op['v'])
+            return copy.deepcopy(self.sio.get_session(sid, namespace=op['ns']))
+        return self.w.run(blk)
+
+    def _session_block_save(self, op):
+        """a session() block during which save_session() is called for op['save'] (the same session, another session
+        of the same client, another client's, or a pair naming no live session -- then the call raises inside the
+        block); the block modifies the dict it got at entry before (k0) and after (k) that call and exits; the result
+        is what get_session() returns after the exit"""
+        sid = self.real(op['sid'])
+        tgt = op['save']
+        tsid = self.real(tgt['sid'])
+        if self.w.is_async:
+            async def blk():
+                async with self.sio.session(sid, namespace=op['ns']) as s:
+                    if 'k0' in op:
+                        s[op['k0']] = copy.deepcopy(op['v0'])
+                    await self.sio.save_session(tsid, copy.deepcopy(tgt['v']), namespace=tgt['ns'])
+                    s[op['k']] = copy.deepcopy(op['v'])
+                return copy.deepcopy(await self.sio.get_session(sid, namespace=op['ns']))
+            return self.w.run(blk)
+
+        def blk():
+            with self.sio.session(sid, namespace=op['ns']) as s:
+                if 'k0' in op:
+                    s[op['k0']] = copy.deepcopy(op['v0'])
+                self.sio.save_session(tsid, copy.deepcopy(tgt['v']), namespace=tgt['ns'])
+                s[op['k']] = copy.deepcopy(op['v'])
             return copy.deepcopy(self.sio.get_session(sid, namespace=op['ns']))
         return self.w.run(blk)
 
@@ -631,7 +660,8 @@ class Runner:
             del self.w.escaped[:]
         if res[0] == 'exc':
             obs['exc'] = res[1]
-        elif res[1] is not None and op['op'] in ('rooms', 'get_session', 'session_block', 'session_nested', 'call'):
+        elif res[1] is not None and op['op'] in ('rooms', 'get_session', 'session_block', 'session_nested',
+                                                 'session_block_save', 'call'):
             obs['result'] = self._canon(res[1])
         if op['op'] == 'call':
             nested = getattr(self, '_nested', [])
@@ -814,6 +844,8 @@ def op_wire(op):
                 'sid': s(op['sid']), 'during': [op_wire(o) for o in op['during']]}
     if k == 'session_nested':
         raise ValueError('session_nested is expanded by model_run')
+    if k == 'session_block_save':
+        raise ValueError('session_block_save is run by model_run as a sequence of inputs')
     if k in ('disconnect', 'rooms', 'get_session'):
         return {'op': k, 'sid': s(op['sid']), 'ns': s(op['ns'])}
     if k in ('enter', 'leave'):
@@ -896,6 +928,32 @@ def _nested_as_blocks(o):
             {'op': 'session_block', 'sid': o['sid'], 'ns': o['ns'], 'k': o['k'], 'v': o['v']}]
 
 
+def _model_block_save(drv, o):
+    """`session_block_save` as model inputs: getSession (the dict E the block works on); saveSession for the call made
+    while the block is open; saveSession of E with the block's modifications (what the exit of the block does, also
+    when the call inside raised: then without the modification that would have followed it); getSession (the result)."""
+    def ask(x):
+        return model_obs(drv.ask(op_wire(x)))
+    me = {'sid': o['sid'], 'ns': o['ns']}
+    out = model_obs({'outs': []})
+    a = ask(dict(me, op='get_session'))
+    if a['raised']:
+        out['raised'] = True          # no such session: session() raises at entry
+        return out
+    cur = a['result']
+    if isinstance(cur, dict) and 'k0' in o:
+        cur[o['k0']] = o['v0']
+    b = ask(dict(o['save'], op='save_session'))
+    if b['raised']:
+        out['raised'] = True
+    elif isinstance(cur, dict):
+        cur[o['k']] = o['v']
+    ask(dict(me, op='save_session', v=cur))
+    if not out['raised']:
+        out['result'] = ask(dict(me, op='get_session'))['result']
+    return out
+
+
 def model_run(cfg, ops):
     flat = []
     now = cfg
@@ -907,11 +965,29 @@ def model_run(cfg, ops):
             now = registry_after(now, o)
             w = cfg_wire(now)['cfg']
             flat.append({'_wire': {'op': 'reg', 'fn': w['fn'], 'cls': w['cls']}})
+        elif o['op'] == 'session_block_save':
+            flat.append({'_dialogue': o})
         else:
             flat.extend(o['frames'] if o['op'] == 'burst' else [o])
-    lines = [cfg_wire(cfg)] + [o['_wire'] if '_wire' in o else op_wire(o) for o in flat]
-    answers = C.batch('server', lines + [{'op': 'snapshot'}])
-    obs = [model_obs(a) for a in answers[1:-1]]
+    if any('_dialogue' in o for o in flat):
+        # an op that is a SEQUENCE of model inputs of which a later one depends on an earlier answer: one model
+        # process, asked line by line
+        drv = C.Driver('server')
+        try:
+            drv.ask(cfg_wire(cfg))
+            obs = []
+            for o in flat:
+                if '_dialogue' in o:
+                    obs.append(_model_block_save(drv, o['_dialogue']))
+                else:
+                    obs.append(model_obs(drv.ask(o['_wire'] if '_wire' in o else op_wire(o))))
+            answers = [drv.ask({'op': 'snapshot'})]
+        finally:
+            drv.close()
+    else:
+        lines = [cfg_wire(cfg)] + [o['_wire'] if '_wire' in o else op_wire(o) for o in flat]
+        answers = C.batch('server', lines + [{'op': 'snapshot'}])
+        obs = [model_obs(a) for a in answers[1:-1]]
     out = []
     i = 0
     for o in ops:
@@ -990,10 +1066,12 @@ def compare(op, impl, model):
         elif not impl['exc'] and not C.same(impl['result'], model['result']):
             diffs.append('nested session() blocks lost a modification: stored %r, both writes give %r'
                          % (impl['result'], model['result']))
-    elif k in ('get_session', 'session_block', 'save_session', 'enter', 'leave', 'close', 'disconnect', 'emit'):
+    elif k in ('get_session', 'session_block', 'session_block_save', 'save_session', 'enter', 'leave', 'close',
+               'disconnect', 'emit'):
         if bool(impl['exc']) != model['raised']:
             diffs.append('%s: impl exc=%r model raised=%r' % (k, impl['exc'], model['raised']))
-        elif not impl['exc'] and k in ('get_session', 'session_block') and not C.same(impl['result'], model['result']):
+        elif not impl['exc'] and k in ('get_session', 'session_block', 'session_block_save') and not C.same(
+                impl['result'], model['result']):
             diffs.append('%s result: impl=%r model=%r' % (k, impl['result'], model['result']))
     elif k == 'register':
         if impl['exc']:
@@ -1288,6 +1366,14 @@ class ClientFrames:
 
     def drop(self, t):
         self.pend.pop(t, None)
+
+    def pending_ns(self, t):
+        """namespace of the incomplete packet of transport t (None: nothing pending)"""
+        from . import pycodec
+        try:
+            return pycodec.decode_text(self.pend[t][0])['ns']
+        except Exception:   # noqa
+            return None
 
 
 def served(cfg, ns):
